@@ -13,7 +13,33 @@ from ..common import PROVED, REFUTED, Report, res, run_pool
 from . import c11
 from .c14 import _unitary
 
-PATTERNS = ("plain", "H.sec.Z", "sec.H.sec", "T.sec.barrier.sec")
+PATTERNS = ("plain", "H.sec.Z", "sec.H.sec", "T.sec.barrier.sec", "three-sections")
+
+# classical sections the optimizer can shorten (so that a splice really happens), used for circuits with three sections
+REDUCIBLE = [
+    [("X", (0,)), ("CX", (0, 1)), ("X", (0,)), ("CX", (0, 1))],
+    [("CX", (0, 1)), ("CX", (0, 1))],
+    [("X", (1,)), ("X", (1,)), ("X", (2,))],
+    [("CX", (1, 2)), ("X", (1,)), ("CX", (1, 2)), ("X", (1,))],
+    [("CCX", (0, 1, 2)), ("CCX", (0, 1, 2)), ("X", (0,))],
+    [("X", (2,)), ("CX", (2, 0)), ("X", (2,))],
+]
+
+
+def job_three(a):
+    """circuits with THREE classical sections separated by non-classical gates: every splice must land at its own section"""
+    lo, hi = a
+    fails, n = [], 0
+    combos = [(i, j, k, s) for i in range(len(REDUCIBLE)) for j in range(len(REDUCIBLE)) for k in range(len(REDUCIBLE)) for s in (0, 1)]
+    for i, j, k, s in combos[lo:hi]:
+        seps = [[("H", (0,))], [("H", (1,)), ("T", (2,))]][s]
+        full = REDUCIBLE[i] + seps + REDUCIBLE[j] + [("Z", (1,))] + REDUCIBLE[k] + [("H", (2,))]
+        n += 1
+        f = check(3, full)
+        if f:
+            fails.append(dict(qubits=3, gates=[f"{g}{list(w)}" for g, w in full], **f))
+    return [dict(name="chunk", status="x", strength="aux", backend="csim", secs=0, count=n, nq=3, length="3 sections", pattern="three-sections", fails=fails)]
+
 
 
 def embed(seq, pattern, seq2=None):
@@ -125,6 +151,9 @@ def run(tier, only=None):
             jobs.append((job, (nq, L, lo, lo + step, pat)))
     for s in range(16 if tier == "quick" else 64):
         jobs.append((job_random, (1000 + s, 30)))
+    n3 = len(REDUCIBLE) ** 3 * 2
+    for lo in range(0, n3, 27):
+        jobs.append((job_three, (lo, lo + 27)))
     rs = run_pool(_dispatch, jobs)
     agg = {}
     for r in rs:
